@@ -1,8 +1,11 @@
+import logging
 from typing import Optional, Type
 
 from indi.client.events import ValueUpdate
 from indi.device import values
 from indi.message import def_parts, one_parts
+
+logger = logging.getLogger(__name__)
 
 
 class Element:
@@ -97,10 +100,22 @@ class BLOB(Element):
             self._value = values.BLOB(b"", msg.format) if declared_size == 0 else None
             return
 
-        blob_value = values.BLOB.from_base64(msg.value, msg.format)
-        assert (
-            int(msg.size) == blob_value.size
-        ), f"Blob size differs: {msg.size} declared vs {blob_value.size} measured"
+        try:
+            blob_value = values.BLOB.from_base64(msg.value, msg.format)
+            declared_size = int(msg.size)
+        except (TypeError, ValueError):
+            logger.warning("Client: cannot decode BLOB element %s, ignoring it", self.name)
+            return
+
+        if declared_size != blob_value.size:
+            # a corrupt update must not end the connection's receive loop
+            logger.warning(
+                "Client: BLOB element %s size differs: %s declared vs %s measured, ignoring it",
+                self.name,
+                msg.size,
+                blob_value.size,
+            )
+            return
 
         self._value = blob_value
 
